@@ -350,7 +350,7 @@ def tlaps_leg(chk, module="API_proofs"):
     if not m:
         raise vlib.ToolError("TLAPS proof %s is not complete (specification defect):\n%s" % (module, p.stdout[-2500:]))
     chk.leg("tlaps:" + module, obligations_proved=int(m.group(1)), wall_s=round(time.time() - t0, 1),
-            theorems="for the API state machine with unconstrained arguments (no bound on keys, calls, messages): ASpec => []DroppedIsZero; ASpec => [](SigFunctional /\\ SerInjective /\\ FmtInjective); ASpec => [][issued only grows, sigof only extends]_vars")
+            theorems="for the API state machine with unconstrained arguments (no bound on keys, calls, messages): ASpec => []DroppedIsZero; ASpec => [](SigFunctional /\\ SerInjective /\\ FmtInjective); ASpec => [][issued only grows, sigof only extends]_vars; ASpec => [][a call reporting an error creates nothing]_vars; ASpec => [](RNG request log is empty, one or two fallible 32-byte requests)")
     shutil.rmtree(d, ignore_errors=True)
 
 
